@@ -222,7 +222,12 @@ def processStep (st : DState) (si : StepIn) : DState × String := Id.run do
   match si.fault with
   | some k =>
     let (_, mo0) := stepF noFault cur si.op
-    if mo0.ok && k < mo0.msgs.length && (io.ok || !unchanged) then orc := orc ++ ["o15"]
+    if mo0.ok && k < mo0.msgs.length && (io.ok || !unchanged) then
+      orc := orc ++ ["o15"]
+      -- C10: the failed message was the community-pool deposit, yet the proceeds left
+      match mo0.msgs[k]? with
+      | some (.fundPool ..) => if io.ok then orc := orc ++ ["o10f"]
+      | _ => pure ()
   | none => pure ()
   -- C07 drain mode
   if st.drain && !io.ok && adopt then orc := orc ++ ["o07"]
